@@ -174,6 +174,26 @@ fn dump_corpus(tier: &str, path: &str) {
             texts.push(l.text);
         }
     }
+    // file trees (loaded through a2lfile::load): a stride of the C16 include trees, each also with a comment at the top of, between
+    // the blocks of and at the end of every included file
+    for (i, t) in c16::build(&g, false).into_iter().enumerate() {
+        if i % (if thorough { 5 } else { 23 }) != 0 || t.a2ml_include {
+            continue;
+        }
+        for commented in [false, true] {
+            let mut s = String::from("\u{1}TREE");
+            for (fi, (name, content)) in t.files.iter().enumerate() {
+                let c = if commented && fi > 0 {
+                    let mid = content.replacen("\n/begin ", "\n/* between */\n/begin ", 1).replacen("\n    /begin ", "\n    // between\n    /begin ", 1);
+                    format!("/* header of {name} */\n{mid}// end of {name}\n")
+                } else {
+                    content.clone()
+                };
+                s.push_str(&format!("\u{1}FILE {name}\n{c}"));
+            }
+            texts.push(s);
+        }
+    }
     let mut seen = std::collections::HashSet::new();
     texts.retain(|t| seen.insert(vcore::explore::fnv1a(t.as_bytes())));
     let mut f = std::io::BufWriter::new(std::fs::File::create(path).expect("cannot create corpus file"));
